@@ -1,7 +1,8 @@
 #!/venv/bin/python
 """seedgen.py [seed names...]  -  which of the kept seeded changes are stopped by the translated-code theorems alone?
 For every /verif/seeded/<name>/patch.diff: apply it to a scratch worktree of /repo, run every translator on it, and, in a
-scratch copy of /verif/coq, recompile the generated files that changed together with every file that depends on them.
+scratch copy of /verif/coq, recompile the generated files that changed together with the files that depend on them (stopping at
+the first proof files that no longer compile).
 Prints one line per change: the translators that refused the source, the generated files that changed, the proof files
 that no longer compile.  Nothing under /verif or /repo is modified (scratch copies under a temporary directory, removed at
 the end).  Not a registered check: a measurement for DESIGN.md section 10."""
@@ -18,7 +19,7 @@ GENS = [("gen_consts.py", "Consts.v"), ("gen_callgraph.py", "CallGraph.v"), ("ge
         ("gen_helpers2.py", "GenHelpers2.v"), ("gen_storage.py", "GenStorage.v"), ("gen_node.py", "GenNode.v"),
         ("gen_links.py", "GenLinks.v"), ("gen_trie.py", "GenTrie.v"), ("gen_triew.py", "GenTrieW.v"),
         ("gen_tried.py", "GenTrieD.v"), ("gen_traph.py", "GenTraph.v"), ("gen_traphw.py", "GenTraphW.v"),
-        ("gen_traphl.py", "GenTraphL.v"), ("gen_traphp.py", "GenTraphP.v"), ("gen_traphk.py", "GenTraphK.v"), ("gen_traphb.py", "GenTraphB.v"), ("gen_traphq.py", "GenTraphQ.v"), ("gen_traphm.py", "GenTraphM.v"), ("gen_traphn.py", "GenTraphN.v"), ("gen_traphx.py", "GenTraphX.v"), ("gen_triei.py", "GenTrieI.v"), ("gen_traphg.py", "GenTraphG.v"), ("gen_traphh.py", "GenTraphH.v"), ("gen_traphr.py", "GenTraphR.v"), ("gen_traphn2.py", "GenTraphN2.v")]
+        ("gen_traphl.py", "GenTraphL.v"), ("gen_traphp.py", "GenTraphP.v"), ("gen_traphk.py", "GenTraphK.v"), ("gen_traphb.py", "GenTraphB.v"), ("gen_traphq.py", "GenTraphQ.v"), ("gen_traphm.py", "GenTraphM.v"), ("gen_traphn.py", "GenTraphN.v"), ("gen_traphx.py", "GenTraphX.v"), ("gen_triei.py", "GenTrieI.v"), ("gen_traphg.py", "GenTraphG.v"), ("gen_traphh.py", "GenTraphH.v"), ("gen_traphr.py", "GenTraphR.v"), ("gen_traphn2.py", "GenTraphN2.v"), ("gen_traphz.py", "GenTraphZ.v")]
 
 
 def sh(cmd, cwd=None, env=None, timeout=3600):
@@ -26,70 +27,97 @@ def sh(cmd, cwd=None, env=None, timeout=3600):
     return p.returncode, p.stdout.decode(errors="replace")
 
 
-def main():
-    names = sys.argv[1:] or sorted(os.listdir(os.path.join(ROOT, "seeded")))
-    tmp = tempfile.mkdtemp(prefix="seedgen-")
-    coq = os.path.join(tmp, "coq")
-    shutil.copytree(os.path.join(ROOT, "coq"), coq, symlinks=True)
-    sh("coq_makefile -f _CoqProject -o Makefile", cwd=coq)
-    rc, o = sh("make -j16 2>&1 | tail -3", cwd=coq)        # the unchanged tree builds
-    os.makedirs(os.path.join(tmp, "ocaml"), exist_ok=True)       # Extract.v writes ../ocaml/model.ml
+def one_worker(args):
+    """run the seeds of one worker in its own scratch copy"""
+    tmp, wi, names = args
+    wd = os.path.join(tmp, "w%d" % wi)
+    os.makedirs(wd)
+    pristine = os.path.join(tmp, "pristine", "coq")
+    coq = os.path.join(wd, "coq")
+    sh("cp -a %s %s" % (pristine, coq))
+    os.makedirs(os.path.join(wd, "ocaml"), exist_ok=True)       # Extract.v writes ../ocaml/model.ml
 
     def body(path):
         # without the header line, which names the repository the file was generated from
         return "".join(open(path).readlines()[1:])
     base = dict((v, body(os.path.join(coq, "theories", v))) for _, v in GENS)
-    orig = dict((v, open(os.path.join(coq, "theories", v)).read()) for _, v in GENS)
+    out = {}
+    for name in names:
+        patch = os.path.join(ROOT, "seeded", name, "patch.diff")
+        if not os.path.exists(patch):
+            continue
+        wt = os.path.join(wd, "repo")
+        sh("git -C /repo worktree add -q --detach %s HEAD" % wt)
+        res = {"refused": [], "changed": [], "broken": []}
+        try:
+            rc, o = sh("git apply %s" % patch, cwd=wt)
+            if rc != 0:
+                res["error"] = o[-200:]
+                out[name] = res
+                continue
+            env = dict(os.environ, VERIF_REPO=wt, PYTHONPATH="")
+            for g, v in GENS:
+                dst = os.path.join(coq, "theories", v)
+                new = dst + ".new"
+                rc, o = sh("/venv/bin/python %s %s" % (os.path.join(HERE, g), new), env=env)
+                if rc != 0:
+                    res["refused"].append(g)
+                elif body(new) != base[v]:
+                    res["changed"].append(v)
+                    shutil.copy(new, dst)
+                if os.path.exists(new):
+                    os.remove(new)
+            if res["changed"]:
+                # no -k: the first proof files that stop compiling are enough to say the change is stopped
+                rc, o = sh("make -j%d 2>&1 | grep -B1 -A6 '^Error\\|Error:' | head -60" % JOBS, cwd=coq)
+                for ln in o.split("\n"):
+                    if ln.startswith("File \"./theories/"):
+                        f = ln.split('"')[1].replace("./theories/", "")
+                        if f not in res["broken"]:
+                            res["broken"].append(f)
+        finally:
+            sh("git -C /repo worktree remove --force %s" % wt)
+            if res["changed"]:
+                sh("rsync -a --delete %s/ %s/" % (pristine, coq))       # back to the unchanged tree's files, with their timestamps
+        out[name] = res
+        print("%-10s refused=%s changed=%s broken=%s" % (name, ",".join(res["refused"]) or "-", ",".join(res["changed"]) or "-",
+                                                      ",".join(res["broken"]) or "-"), flush=True)
+    return out
+
+
+WORKERS = int(os.environ.get("SEEDGEN_WORKERS", "4"))
+JOBS = int(os.environ.get("SEEDGEN_JOBS", "4"))
+
+
+def main():
+    import multiprocessing
+    names = sys.argv[1:] or sorted(os.listdir(os.path.join(ROOT, "seeded")))
+    tmp = tempfile.mkdtemp(prefix="seedgen-")
     out = {}
     try:
-        for name in names:
-            patch = os.path.join(ROOT, "seeded", name, "patch.diff")
-            if not os.path.exists(patch):
-                continue
-            wt = os.path.join(tmp, "repo")
-            sh("git -C /repo worktree add -q --detach %s HEAD" % wt)
-            res = {"refused": [], "changed": [], "broken": []}
-            try:
-                rc, o = sh("git apply %s" % patch, cwd=wt)
-                if rc != 0:
-                    res["error"] = o[-200:]
-                    continue
-                env = dict(os.environ, VERIF_REPO=wt, PYTHONPATH="")
-                for g, v in GENS:
-                    dst = os.path.join(coq, "theories", v)
-                    new = dst + ".new"
-                    rc, o = sh("/venv/bin/python %s %s" % (os.path.join(HERE, g), new), env=env)
-                    if rc != 0:
-                        res["refused"].append(g)
-                    elif body(new) != base[v]:
-                        res["changed"].append(v)
-                        shutil.copy(new, dst)
-                    if os.path.exists(new):
-                        os.remove(new)
-                if res["changed"]:
-                    rc, o = sh("make -k -j16 2>&1 | grep -B1 -A6 '^Error\\|Error:' | head -60", cwd=coq)
-                    for ln in o.split("\n"):
-                        if ln.startswith("File \"./theories/"):
-                            f = ln.split('"')[1].replace("./theories/", "")
-                            if f not in res["broken"]:
-                                res["broken"].append(f)
-            finally:
-                sh("git -C /repo worktree remove --force %s" % wt)
-                # restore the generated files of the unchanged tree (and their timestamps' consequences: make rebuilds them)
-                for _, v in GENS:
-                    dst = os.path.join(coq, "theories", v)
-                    if open(dst).read() != orig[v]:
-                        open(dst, "w").write(orig[v])
-                if res["changed"]:
-                    sh("make -j16 2>&1 | tail -1", cwd=coq)
-            out[name] = res
-            print("%-10s refused=%s changed=%s broken=%s" % (name, ",".join(res["refused"]) or "-", ",".join(res["changed"]) or "-",
-                                                          ",".join(res["broken"]) or "-"), flush=True)
+        os.makedirs(os.path.join(tmp, "pristine", "ocaml"))
+        coq = os.path.join(tmp, "pristine", "coq")
+        sh("cp -a %s %s" % (os.path.join(ROOT, "coq"), coq))
+        sh("coq_makefile -f _CoqProject -o Makefile", cwd=coq)
+        rc, o = sh("make -j16 2>&1 | tail -3", cwd=coq)        # the unchanged tree builds
+        if rc != 0 or "Error" in o:
+            print("the unchanged tree does not build:\n" + o)
+            return 2
+        shards = [(tmp, i, names[i::WORKERS]) for i in range(WORKERS)]
+        with multiprocessing.Pool(WORKERS) as pool:
+            for r in pool.imap_unordered(one_worker, shards):
+                out.update(r)
     finally:
         shutil.rmtree(tmp, ignore_errors=True)
         sh("git -C /repo worktree prune")
-    json.dump(out, open(os.path.join(ROOT, "work", "seedgen.json"), "w"), indent=1)
+    json.dump(out, open(os.path.join(ROOT, "work", "seedgen.json"), "w"), indent=1, sort_keys=True)
+    n = len(out)
+    ref = sum(1 for r in out.values() if r["refused"])
+    brk = sum(1 for r in out.values() if not r["refused"] and r["broken"])
+    chg = sum(1 for r in out.values() if not r["refused"] and not r["broken"] and r["changed"])
+    print("SUMMARY seeds=%d refused=%d broken_only=%d changed_only=%d untouched=%d" % (n, ref, brk, chg, n - ref - brk - chg))
+    return 0
 
 
 if __name__ == "__main__":
-    main()
+    sys.exit(main())
